@@ -2,7 +2,7 @@
    base directory is an association list key -> bytes (keys unique); KeysPrefix is the walk,
    prefix filter, delimiter cut, sort, dedupe and token lookup of the code. *)
 From Coq Require Import List String Ascii NArith Bool Arith.
-From DM Require Import Base.Str Base.StrOrder Base.Paging.
+From DM Require Import Base.Str Base.StrOrder Base.Paging Base.Listing.
 Import ListNotations.
 Open Scope list_scope.
 
@@ -33,35 +33,7 @@ Definition lput (k : string) (v : list N) (excl : bool) (s : lfs) : lres * lfs :
 Definition ldelete (k : string) (s : lfs) : lfs := lremove k s.
 Definition lhas (k : string) (s : lfs) : bool := match lget k s with Some _ => true | None => false end.
 
-(* first position of sub in s *)
-Fixpoint find_sub (sub s : string) (fuel : nat) : option nat :=
-  match fuel with
-  | O => None
-  | S f =>
-      if starts_with sub s then Some 0
-      else match s with
-           | EmptyString => None
-           | String _ t => option_map S (find_sub sub t f)
-           end
-  end.
-
-Fixpoint take (n : nat) (s : string) : string :=
-  match n, s with
-  | O, _ => EmptyString
-  | S n', String c t => String c (take n' t)
-  | S _, EmptyString => EmptyString
-  end.
-
-(* the delimiter cut: keep the key up to and including the first delimiter after the prefix *)
-Definition cut (prefix delim k : string) : string :=
-  if String.eqb delim EmptyString then k
-  else match find_sub delim (drop (String.length prefix) k) (S (String.length k)) with
-       | Some i => take (String.length prefix + i + String.length delim) k
-       | None => k
-       end.
-
-Definition list_all (prefix delim : string) (s : lfs) : list string :=
-  sort_uniq (map (cut prefix delim) (filter (starts_with prefix) (map fst s))).
+Definition list_all (prefix delim : string) (s : lfs) : list string := list_keys prefix delim (map fst s).
 
 Definition exact_seek (tok : string) (l : list string) : list string :=
   match find_eq tok l with Some r => r | None => [] end.
